@@ -31,8 +31,8 @@ func (c *Context) VerifState() VerifContextState {
 		Mailbox:    c.mailbox,
 		Stash:      append([]vivid.Envelop(nil), c.stash...),
 	}
-	for p := range c.children {
-		st.Children = append(st.Children, p)
+	for _, r := range c.Children() {
+		st.Children = append(st.Children, r.GetPath())
 	}
 	for _, w := range c.watchers {
 		st.Watchers = append(st.Watchers, w.GetPath())
